@@ -41,9 +41,9 @@ theorem literal_matches_itself (ic : Bool) (name pat : String) (hw : isWildcard 
     matchPure ic name pat = true ↔ EqChars ic pat.toList name.toList :=
   C08bL.matchPure_literal_iff ic name pat hw
 
-/-- `str.upper` agrees on two strings iff it agrees character by character -/
+/-- `str.upper` agrees on two strings iff the per-character upper cases concatenate to the same string -/
 theorem upper_eq_iff (s t : String) :
-    upper s = upper t ↔ s.toList.map upperChar = t.toList.map upperChar :=
+    upper s = upper t ↔ s.toList.flatMap upperStr = t.toList.flatMap upperStr :=
   C08bL.upper_eq_iff s t
 
 /-- `__cmp` as character-by-character equality under `re.IGNORECASE`, over case-regular characters -/
@@ -325,7 +325,7 @@ example : SiblingUnique kCtx := by
   | (_ + 1) :: _, hx, _ => simp [kCtx, kTree, Ctx.children, Nav.childAddrs, sub] at hx
 example : ¬ CaseAgree kCtx (· ∈ "k".toList) := by
   intro h
-  have := h rfl '\u212a' 'k' (Or.inr ⟨[0], by decide⟩) (Or.inl (by decide))
+  have := (h rfl).2 '\u212a' 'k' (Or.inr ⟨[0], by decide⟩) (Or.inl (by decide))
   exact CaseFold.signs_irregular.1.2 (this.mp CaseFold.signs_irregular.1.1)
 
 /-- with a regular non-ASCII letter instead the two agree, as the theorem says -/
@@ -334,5 +334,14 @@ def eCtx : Ctx String := ⟨eTree, id, "/", true, false⟩
 example : matchPure true "\u00c9" "\u00e9" = true ∧ cmp true "\u00c9" "\u00e9" = true := by decide
 example : Resolver.get eCtx [] "\u00e9" = .ok (some [0]) := by decide
 #guard (Resolver.glob false eCtx [] "\u00e9" []).1 == .ok [[0]]
+
+/-- the second kind of disagreement, from the other side: a child named `ß` is found by
+`get(root, "ss")` (`"ß".upper()` is `"SS"`) and not by `glob(root, "ss")` (`re.IGNORECASE` lets `ß`
+match only `ß` and `ẞ`) -/
+def sTree : Tree String := .node "root" [.node "\u00df" []]
+def sCtx : Ctx String := ⟨sTree, id, "/", true, false⟩
+example : matchPure true "\u00df" "ss" = false ∧ cmp true "\u00df" "ss" = true := by decide
+example : Resolver.get sCtx [] "ss" = .ok (some [0]) := by decide
+#guard (Resolver.glob false sCtx [] "ss" []).1 == .error (.child [] "ss")      -- evaluated, not kernel-checked
 
 end Anytree.Props.C08b
